@@ -31,6 +31,10 @@ add('KF-send-failed-residue', ['C10'], ['slots_not_all_free_at_quiescence'],
     {'send_failed': True, 'lane': 'sim'},
     'apply_async with put-locks whose task could not be sent: the slot taken at submission is never given back (TaskHandler has no access to the semaphore)')
 
+add('KF-close-stops-recycling', ['C07'], ['result_missing_or_wrong_after_join', 'join_slow', 'join_hung'],
+    {'recycling': True, 'pending_at_close': True, 'lane': 'real'},
+    'close() with maxtasksperchild while more work is queued than the live workers\' remaining quota: the supervisor stops at close() (its loop runs only while the pool is in RUN state), recycled workers are not replaced, the queued jobs never run and join() gives up 5 s after the last worker left')
+
 fixed = json.load(open(here + '/known_fixed.json')) if os.path.exists(here + '/known_fixed.json') else []
 json.dump({'findings': F, 'fixed': fixed}, open(here + '/known_findings.json', 'w'), indent=1)
 print(len(F), 'finding keys;', len(fixed), 'fixed entries')
